@@ -6,6 +6,7 @@ pub mod body;
 pub mod lab;
 pub mod loopback;
 pub mod router;
+pub mod svc;
 
 pub use body::{all_chunkings, random_chunking, ChunkStream, Chunks, INJECTED};
 pub use loopback::{AsyncLoopback, Exchange, Loopback};
